@@ -82,12 +82,18 @@ pub fn char_index_to_position(content: &str, char_index: usize) -> Position {
         }
     }
 
-    let character = char_index - last_line_start;
+    let character = utf16_len(&content[last_line_start..char_index]);
 
     Position {
         line: line as u32,
-        character: character as u32,
+        character,
     }
+}
+
+/// The length of some text in UTF-16 code units, which is the unit in which the language
+/// server protocol measures columns and lengths.
+pub fn utf16_len(text: &str) -> u32 {
+    text.encode_utf16().count() as u32
 }
 
 #[memo]
